@@ -981,6 +981,12 @@ func main() {
 			return callArgIs(repo, bs, "replicate", "TopicSubscribe", 1, "b.id", "storeTopicIsAddress",
 				"the pubsub topic a store subscribes to is named by its address (b.id), not by anything databases may share")
 		}},
+		{"GenDocRead", func() string {
+			return effectOrder(repo, "stores/documentstore/document.go", "Query", "docQueryOrder", [][2]string{
+				{"onestate", "docIndex.snapshot()"}, {"keys", "docIndex.Keys()"}, {"decode", "o.docOpts.Unmarshal("}}) +
+				effectOrder(repo, "stores/documentstore/document.go", "Get", "docGetOrder", [][2]string{
+					{"onestate", "docIndex.snapshot()"}, {"keys", "docIndex.Keys()"}, {"decode", "o.docOpts.Unmarshal("}})
+		}},
 		{"GenLogQuery", func() string {
 			return effectOrder(repo, "stores/eventlogstore/log.go", "query", "logQueryOrder", [][2]string{
 				{"operations", "operation.ParseOperation(e)"}, {"window", "o.read("}})
